@@ -284,7 +284,7 @@ Lemma is_up_to_date_sites_ok l i t s : is_up_to_date l i t = Panic s -> In s las
 Proof. unfold is_up_to_date. intros H. pstart H. psites. Qed.
 #[export] Hint Resolve is_up_to_date_sites_ok : sites.
 
-Definition upper_bound_sites : list N := [site_l_overflow].
+Definition upper_bound_sites : list N := [].   (* saturating since /repo 63caa76 *)
 Lemma upper_bound_sites_ok l s : applied_index_upper_bound l = Panic s -> In s upper_bound_sites.
 Proof. unfold applied_index_upper_bound. intros H. pstart H. psites. Qed.
 #[export] Hint Resolve upper_bound_sites_ok : sites.
@@ -477,7 +477,7 @@ Lemma bcast_heartbeat_sites_ok r s : bcast_heartbeat r = Panic s -> In s bcast_h
 Proof. unfold bcast_heartbeat. apply bcast_heartbeat_with_ctx_sites_ok. Qed.
 #[export] Hint Resolve bcast_heartbeat_sites_ok : sites.
 
-Definition maybe_commit_sites : list N := site_self_progress :: l_maybe_commit_sites.
+Definition maybe_commit_sites : list N := l_maybe_commit_sites.   (* no unwrap since /repo e9967b2 *)
 Lemma maybe_commit_sites_ok r s : maybe_commit r = Panic s -> In s maybe_commit_sites.
 Proof. unfold maybe_commit. intros H. pstart H. psites. Qed.
 #[export] Hint Resolve maybe_commit_sites_ok : sites.
@@ -730,7 +730,7 @@ Proof. unfold tick. intros H. pstart H. psites. Qed.
 #[export] Hint Resolve tick_sites_ok : sites.
 
 Definition on_persist_entries_sites : list N :=
-  site_self_progress :: storage_term_sites ++ maybe_commit_sites ++ send_append_sites.
+  storage_term_sites ++ maybe_commit_sites ++ send_append_sites.
 Lemma on_persist_entries_sites_ok r i t s :
   on_persist_entries r i t = Panic s -> In s on_persist_entries_sites.
 Proof. unfold on_persist_entries. intros H. pstart H. psites. Qed.
@@ -792,3 +792,112 @@ Lemma assign_commit_groups_sites_ok r ids s :
   assign_commit_groups r ids = Panic s -> In s assign_commit_groups_sites.
 Proof. unfold assign_commit_groups. intros H. pstart H. psites. Qed.
 #[export] Hint Resolve assign_commit_groups_sites_ok : sites.
+
+(* ================================================================== *)
+(* 5. site tables of M/RawNode.v *)
+Lemma lift_sites (L : list N) n x s :
+  (forall s, x = Panic s -> In s L) -> lift n x = Panic s -> In s L.
+Proof. intros Hx H. unfold lift in H. apply bind_panic in H. destruct H as [H|(y & _ & H)]; [eauto|discriminate]. Qed.
+Lemma lift2_sites (L : list N) n x s :
+  (forall s, x = Panic s -> In s L) -> lift2 n x = Panic s -> In s L.
+Proof. intros Hx H. unfold lift2 in H. apply bind_panic in H. destruct H as [H|(y & _ & H)]; [eauto|discriminate]. Qed.
+
+Lemma rn_step_sites_ok n m s : rn_step n m = Panic s -> In s step_sites.
+Proof.
+  unfold rn_step. intros H. destruct (is_local_msg _); [discriminate|].
+  destruct (_ || _); [|discriminate].
+  eapply lift2_sites; [|exact H]. intros s0. apply step_sites_ok.
+Qed.
+#[export] Hint Resolve rn_step_sites_ok : sites.
+Lemma rn_tick_sites_ok n s : rn_tick n = Panic s -> In s step_sites.
+Proof. unfold rn_tick. intros H. pstart H. psites. Qed.
+#[export] Hint Resolve rn_tick_sites_ok : sites.
+Lemma rn_campaign_sites_ok n s : rn_campaign n = Panic s -> In s step_sites.
+Proof. unfold rn_campaign. apply lift2_sites. intros s0. apply step_sites_ok. Qed.
+Lemma rn_propose_sites_ok n c d s : rn_propose n c d = Panic s -> In s step_sites.
+Proof. unfold rn_propose. apply lift2_sites. intros s0. apply step_sites_ok. Qed.
+Lemma rn_propose_conf_change_sites_ok n c d ty ci s :
+  rn_propose_conf_change n c d ty ci = Panic s -> In s step_sites.
+Proof. unfold rn_propose_conf_change. apply lift2_sites. intros s0. apply step_sites_ok. Qed.
+Lemma rn_apply_conf_change_sites_ok n cc s :
+  rn_apply_conf_change n cc = Panic s -> In s post_conf_change_sites.
+Proof. unfold rn_apply_conf_change. intros H. pstart H. psites. Qed.
+Lemma rn_ping_sites_ok n s : rn_ping n = Panic s -> In s bcast_heartbeat_sites.
+Proof. unfold rn_ping. apply lift_sites. intros s0. apply ping_sites_ok. Qed.
+#[export] Hint Resolve rn_campaign_sites_ok rn_propose_sites_ok rn_propose_conf_change_sites_ok
+  rn_apply_conf_change_sites_ok rn_ping_sites_ok : sites.
+
+Definition gen_light_ready_sites : list N := site_rn_commit_since :: next_entries_since_sites.
+Lemma gen_light_ready_sites_ok n s : gen_light_ready n = Panic s -> In s gen_light_ready_sites.
+Proof. unfold gen_light_ready. intros H. pstart H. psites. Qed.
+#[export] Hint Resolve gen_light_ready_sites_ok : sites.
+
+Definition check_records_sites : list N := [site_rn_record_entry; site_rn_record_snap].
+Lemma check_records_empty_sites_ok l : forall s, check_records_empty l = Panic s -> In s check_records_sites.
+Proof.
+  induction l as [|rr t IH]; intros s H; cbn [check_records_empty] in H; [discriminate|].
+  pstart H. psites.
+Qed.
+#[export] Hint Resolve check_records_empty_sites_ok : sites.
+
+Definition rn_ready_sites : list N :=
+  check_records_sites ++ [site_rn_snap_since; site_rn_snap_entries] ++ has_next_entries_since_sites
+  ++ gen_light_ready_sites.
+Lemma rn_ready_sites_ok n s : rn_ready n = Panic s -> In s rn_ready_sites.
+Proof. unfold rn_ready. intros H. pstart H. psites. Qed.
+#[export] Hint Resolve rn_ready_sites_ok : sites.
+
+Lemma rn_has_ready_sites_ok n s : rn_has_ready n = Panic s -> In s has_next_entries_since_sites.
+Proof. unfold rn_has_ready. intros H. pstart H. psites. Qed.
+#[export] Hint Resolve rn_has_ready_sites_ok : sites.
+
+Definition commit_ready_sites : list N :=
+  [site_rn_records_back; site_rn_number] ++ u_stable_snap_sites ++ u_stable_entries_sites.
+Lemma commit_ready_sites_ok n rd s : commit_ready n rd = Panic s -> In s commit_ready_sites.
+Proof. unfold commit_ready. intros H. pstart H. psites. Qed.
+#[export] Hint Resolve commit_ready_sites_ok : sites.
+
+Definition rn_on_persist_ready_sites : list N := maybe_persist_snap_sites ++ on_persist_entries_sites.
+Lemma rn_on_persist_ready_sites_ok n k s :
+  rn_on_persist_ready n k = Panic s -> In s rn_on_persist_ready_sites.
+Proof.
+  unfold rn_on_persist_ready. intros H.
+  destruct (fold_records _ _ _ _ _) as [[[recs i] t] si]. pstart H. psites.
+Qed.
+#[export] Hint Resolve rn_on_persist_ready_sites_ok : sites.
+
+Definition rn_advance_append_sites : list N :=
+  [site_rn_new_msg; site_rn_commit_eq; site_rn_hs_eq] ++ commit_ready_sites
+  ++ rn_on_persist_ready_sites ++ gen_light_ready_sites.
+Lemma rn_advance_append_sites_ok n rd s :
+  rn_advance_append n rd = Panic s -> In s rn_advance_append_sites.
+Proof. unfold rn_advance_append. intros H. pstart H. psites. Qed.
+#[export] Hint Resolve rn_advance_append_sites_ok : sites.
+
+Lemma rn_advance_apply_to_sites_ok n app s : rn_advance_apply_to n app = Panic s -> In s commit_apply_sites.
+Proof. unfold rn_advance_apply_to. apply lift_sites. intros s0. apply commit_apply_sites_ok. Qed.
+#[export] Hint Resolve rn_advance_apply_to_sites_ok : sites.
+Lemma rn_advance_apply_sites_ok n s : rn_advance_apply n = Panic s -> In s commit_apply_sites.
+Proof. unfold rn_advance_apply. apply rn_advance_apply_to_sites_ok. Qed.
+#[export] Hint Resolve rn_advance_apply_sites_ok : sites.
+
+Definition rn_advance_sites : list N := rn_advance_append_sites ++ commit_apply_sites.
+Lemma rn_advance_sites_ok n rd s : rn_advance n rd = Panic s -> In s rn_advance_sites.
+Proof. unfold rn_advance. intros H. pstart H. psites. Qed.
+#[export] Hint Resolve rn_advance_sites_ok : sites.
+
+Lemma rn_advance_append_async_sites_ok n rd s :
+  rn_advance_append_async n rd = Panic s -> In s commit_ready_sites.
+Proof. unfold rn_advance_append_async. apply commit_ready_sites_ok. Qed.
+
+Lemma rn_report_unreachable_sites_ok n id s : rn_report_unreachable n id = Panic s -> In s step_sites.
+Proof. unfold rn_report_unreachable. intros H. pstart H. psites. Qed.
+Lemma rn_report_snapshot_sites_ok n id f s : rn_report_snapshot n id f = Panic s -> In s step_sites.
+Proof. unfold rn_report_snapshot. intros H. pstart H. psites. Qed.
+Lemma rn_request_snapshot_sites_ok n s :
+  rn_request_snapshot n = Panic s -> In s send_request_snapshot_sites.
+Proof. unfold rn_request_snapshot. apply lift2_sites. intros s0. apply request_snapshot_sites_ok. Qed.
+Lemma rn_transfer_leader_sites_ok n t s : rn_transfer_leader n t = Panic s -> In s step_sites.
+Proof. unfold rn_transfer_leader. intros H. pstart H. psites. Qed.
+Lemma rn_read_index_sites_ok n c s : rn_read_index n c = Panic s -> In s step_sites.
+Proof. unfold rn_read_index. intros H. pstart H. psites. Qed.
